@@ -33,11 +33,12 @@ pub trait SerializableWithHeContext {
 
 impl Serializable for u64 {
     fn serialize<T: Write>(&self, stream: &mut T) -> Result<usize> {
-        stream.write(&self.to_le_bytes())
+        stream.write_all(&self.to_le_bytes())?;
+        Ok(std::mem::size_of::<u64>())
     }
     fn deserialize<T: Read>(stream: &mut T) -> Result<Self> {
         let mut buf = [0u8; 8];
-        stream.read_exact(&mut buf).unwrap();
+        stream.read_exact(&mut buf)?;
         Ok(u64::from_le_bytes(buf))
     }
     fn serialized_size(&self) -> usize {
@@ -47,11 +48,12 @@ impl Serializable for u64 {
 
 impl Serializable for usize {
     fn serialize<T: Write>(&self, stream: &mut T) -> Result<usize> {
-        stream.write(&self.to_le_bytes())
+        stream.write_all(&self.to_le_bytes())?;
+        Ok(std::mem::size_of::<usize>())
     }
     fn deserialize<T: Read>(stream: &mut T) -> Result<Self> {
         let mut buf = [0u8; 8];
-        stream.read_exact(&mut buf).unwrap();
+        stream.read_exact(&mut buf)?;
         Ok(usize::from_le_bytes(buf))
     }
     fn serialized_size(&self) -> usize {
@@ -62,12 +64,13 @@ impl Serializable for usize {
 impl Serializable for u8 {
     #[inline]
     fn serialize<T: Write>(&self, stream: &mut T) -> Result<usize> {
-        stream.write(&[*self])
+        stream.write_all(&[*self])?;
+        Ok(1)
     }
     #[inline]
     fn deserialize<T: Read>(stream: &mut T) -> Result<Self> {
         let mut buf = [0u8; 1];
-        stream.read_exact(&mut buf).unwrap();
+        stream.read_exact(&mut buf)?;
         Ok(buf[0])
     }
     fn serialized_size(&self) -> usize {
